@@ -29,6 +29,12 @@ func TestC36(t *testing.T) {
 	m.Gate("malformed_packets_judged", len(mal), "every enumerated malformed packet was sent and the connection's fate observed")
 	m.Gate("malformed_extdata_between_data_and_extdata_header_on_live_channel", 4, "EXTENDED_DATA packets of 9..12 bytes (longer than the DATA header, shorter than their own) to a live channel")
 
+	// well-formed messages in the wrong direction / wrong channel state: a fixed enumeration
+	nState := len(stateMsgs()) * nStates
+	m.Cases("state", nState, func(i int64, r *rand.Rand) { stateCase(m, i, r) })
+	m.Gate("state_cases_judged", nState, "every (message type, channel state) pair was sent and the connection's fate observed")
+	m.Gate("illegal_open_responses_rejected", 2*(nStates-1), "OPEN_CONFIRMATION/OPEN_FAILURE for a channel that is not a pending local open ended the connection")
+
 	// deterministic schedules (batch 0 only), last because a stall leaves goroutines behind
 	m.Each("loop-exit-race", m.N(1, 3), func(i int64, r *rand.Rand) { loopExitRace(m, i, r) })
 	if m.Batch() == 0 && !m.Replaying() {
